@@ -220,6 +220,27 @@ func manyFamilies(sp *spaceCtx, thorough bool) []*h.Scaffolded {
 		}
 		return r
 	}
+	// every inner node has a multi-byte step and every leaf a multi-byte tail:
+	// > 64 / > 128 stored prefixes, so the rank128 and select32 indexes of the
+	// prefix arrays cross their word boundaries
+	{
+		var keys []string
+		var rec func(prefix string, d int)
+		rec = func(prefix string, d int) {
+			if d == 0 {
+				keys = append(keys, prefix+"tail"+prefix[len(prefix)-1:])
+				return
+			}
+			run := string([]byte{0x55, byte(d), 0xaa})
+			rec(prefix+run+"\x01", d-1)
+			rec(prefix+run+"\xf1", d-1)
+			if d%2 == 0 {
+				rec(prefix+run+"\xf8", d-1)
+			}
+		}
+		rec("", 6)
+		add("long-steps-and-tails(depth 6)", keys)
+	}
 	u122 := h.Universe(s12, 2)
 	add("U(S12,2)", u122)
 	add("U(S12,2)/2", thin(u122, 2, 1))
@@ -334,7 +355,27 @@ func buildPhases(r *h.Run, p profile) []phase {
 	r.Bounds["scaffolds"] = scNames
 	r.Bounds["scaffold_space"] = fmt.Sprintf("K(U21,%d) = %d variable sets per scaffold", sck, h.SubsetCount(len(sp.u2), sck))
 	if len(scs) > 0 {
-		phases = append(phases, subsetPhase("scaffolds:K(U21)", sp.u2, 0, sck, scs, mk(sp.q2)))
+		if thorough {
+			// the 130 shift offsets multiply the space: they range over K(U21,2),
+			// every other scaffold over K(U21,thoroughScafK)
+			var shifts, others []h.Scaffold
+			for _, sc := range scs {
+				if len(sc.Name) > 5 && sc.Name[:5] == "shift" {
+					shifts = append(shifts, sc)
+				} else {
+					others = append(others, sc)
+				}
+			}
+			if len(others) > 0 {
+				phases = append(phases, subsetPhase("scaffolds:K(U21)", sp.u2, 0, sck, others, mk(sp.q2)))
+			}
+			if len(shifts) > 0 {
+				r.Bounds["shift_scaffold_space"] = fmt.Sprintf("K(U21,2) = %d variable sets per shift offset", h.SubsetCount(len(sp.u2), 2))
+				phases = append(phases, subsetPhase("shift-scaffolds:K(U21,2)", sp.u2, 0, 2, shifts, mk(sp.q2)))
+			}
+		} else {
+			phases = append(phases, subsetPhase("scaffolds:K(U21)", sp.u2, 0, sck, scs, mk(sp.q2)))
+		}
 	}
 
 	if thorough && p.u85k > 0 {
@@ -385,6 +426,34 @@ func buildPhases(r *h.Run, p profile) []phase {
 						}
 					}
 				}
+				// variable-width values with presence holes (every 4th value encodes to
+				// the empty slice) and a run in between
+				if containsStr(p.encsSmall, "VarEnc") {
+					for _, o := range []h.Opt4{{D: 1, I: 0, L: 0, C: 0}, {D: 0, I: 0, L: 0, C: 1}} {
+						if p.opts != nil && !containsOpt(p.opts, o) {
+							continue
+						}
+						u := &inputSpec{sc: f, opts: []h.Opt4{o}, insts: p.insts, encs: []string{"VarEnc"}, tag: "holes"}
+						ids := make([]int, len(f.Keys))
+						for i := range ids {
+							switch {
+							case i%4 == 0:
+								ids[i] = 0
+							case i%7 == 3:
+								ids[i] = ids[i-1]
+							default:
+								ids[i] = 1 + i
+							}
+						}
+						u.explicitIDs = ids
+						if p.needQs {
+							u.qs = manyQueries(f.Keys)
+						}
+						if !emit(u) {
+							return
+						}
+					}
+				}
 				if p.nilVals {
 					for _, o := range h.Distinct8()[:4] {
 						if p.opts != nil && !containsOpt(p.opts, o) {
@@ -404,6 +473,15 @@ func buildPhases(r *h.Run, p profile) []phase {
 		}})
 	}
 	return phases
+}
+
+func containsStr(l []string, s string) bool {
+	for _, x := range l {
+		if x == s {
+			return true
+		}
+	}
+	return false
 }
 
 func containsOpt(l []h.Opt4, o h.Opt4) bool {
